@@ -565,6 +565,56 @@ Fixpoint to_path_go (hb : bool) (pts : list cpt) (start_ix : Z) (ends : list Z) 
   end.
 Definition to_path (hb : bool) (pts : list cpt) (ends : list Z) : option (list pcmd) := to_path_go hb pts 0 ends.
 
+(* ================================================================== *)
+(*   write-fonts simple.rs: BezPath front end on integer coordinates    *)
+(* ================================================================== *)
+(* is_implicit_on_curve + is_mid_point for points with integer coordinates (ot_round is the identity
+   and `isclose(mid, p1)` holds iff mid = p1 because |coordinates| <= 2^15): p1 is dropped iff it is
+   on-curve, both neighbours are off-curve and p0 + p2 = 2 * p1 componentwise *)
+Definition implicit (p0 p1 p2 : cpt) : bool :=
+  snd p1 && negb (snd p0) && negb (snd p2)
+  && (cx_ p0 + cx_ p2 =? 2 * cx_ p1) && (cy_ p0 + cy_ p2 =? 2 * cy_ p1).
+(* InterpolatableContourBuilder::build for one glyph: neighbours taken cyclically in the ORIGINAL list
+   (wrapping_prev / wrapping_next) *)
+Fixpoint elide_go (first prev : cpt) (l : list cpt) : list cpt :=
+  match l with
+  | [] => []
+  | p :: r => (if implicit prev p (hd first r) then [] else [p]) ++ elide_go first p r
+  end.
+Definition elide (c : list cpt) : list cpt :=
+  match c with [] => [] | f :: _ => elide_go f (last c f) c end.
+
+Definition cpt_eqb (a b : cpt) : bool := (cx_ a =? cx_ b) && (cy_ a =? cy_ b) && Bool.eqb (snd a) (snd b).
+(* simple_glyphs_from_kurbo for a single path; elements: 0 x y = MoveTo, 1 x y = LineTo,
+   2 cx cy x y = QuadTo, 3 = ClosePath, 4 .. = CurveTo.  State: finished builders (reversed),
+   current builder (points in order).  None = Err(MalformedPath). *)
+Fixpoint from_path (fuel : nat) (els : list Z) (done : list (list cpt)) (cur : option (list cpt))
+  : option (list (list cpt)) :=
+  match fuel with
+  | O => None
+  | S k =>
+    match els with
+    | [] => Some (rev (match cur with Some c => c :: done | None => done end))
+    | 0 :: x :: y :: r =>
+        from_path k r (match cur with Some c => c :: done | None => done end) (Some [(x, y, true)])
+    | 1 :: x :: y :: r =>
+        match cur with None => None | Some c => from_path k r done (Some (c ++ [(x, y, true)])) end
+    | 2 :: a :: b :: x :: y :: r =>
+        match cur with None => None | Some c => from_path k r done (Some (c ++ [(a, b, false); (x, y, true)])) end
+    | 3 :: r =>
+        match cur with
+        | None => None
+        | Some c =>
+            let c' := match c with
+                      | f :: _ :: _ => if cpt_eqb (last c f) f then removelast c else c
+                      | _ => c
+                      end in
+            from_path k r done (Some c')
+        end
+    | _ => None                                   (* CurveTo: HasCubic *)
+    end
+  end.
+
 Definition ser_pcmd (c : pcmd) : list Z :=
   match c with PM x y => [0; x; y] | PL x y => [1; x; y] | PQ a b x y => [2; a; b; x; y] | PZ => [3] end.
 Fixpoint ends_of_lens (cur : Z) (lens : list Z) : list Z :=
@@ -704,6 +754,14 @@ Definition eval_case (kind : Z) (ins : list (list Z)) : list (list Z) :=
       match to_path (negb (hb =? 0)) (half_unit_points xs ys ons) (ends_of_lens 0 lens) with
       | None => [[-1]]
       | Some cmds => [flat_map ser_pcmd cmds]
+      end
+  | 7, [els] =>                                          (* SimpleGlyph::from_bezpath, integer coordinates *)
+      match from_path (S (length els)) els [] None with
+      | None => [[0]]
+      | Some builders =>
+          let cs : list (list cpt) := map elide builders in
+          let pts : list cpt := concat cs in
+          [[1]; map (fun c : list cpt => zlen c) cs; map cx_ pts; map cy_ pts; map (fun p : cpt => if snd p then 1 else 0) pts]
       end
   | _, _ => [[-999]]
   end.
